@@ -15,7 +15,7 @@ from .core import CaseTimeout, CovProbe, Result, short_tb
 def main(argv):
     modname, specfile, outfile = argv
     faulthandler.enable()
-    bootstrap()
+    bootstrap(track_locks=(modname == "c18"))
     mod = importlib.import_module(f"vmon.props.{modname}")
     with open(specfile) as fp:
         spec = json.load(fp)
